@@ -19,7 +19,6 @@ import (
 	"perkeep.org/pkg/index"
 	"perkeep.org/pkg/schema"
 
-	"verif/hs"
 	"verif/vk"
 )
 
@@ -120,7 +119,7 @@ func runStatic(m, n int) (fail *failure, shape string) {
 	}()
 	restore := schema.VerifSetMaxStaticSetMembers(m)
 	defer restore()
-	sto := hs.NewMem("s")
+	sto := sharedStore()
 	var refs []blob.Ref
 	var want []string
 	for i := 0; i < n; i++ {
